@@ -155,8 +155,9 @@ def main():
     for n in (10, 11, 12, 13):
         total = comb.num_shapes(n)
         seen = {}
-        for _ in range(run.budget(120, 1500)):
-            r = rng.randrange(total)
+        todo = range(total) if (run.tier == "thorough" and n <= 12) else \
+            [rng.randrange(total) for _ in range(2500 if n == 12 else 150)]
+        for r in todo:
             tr = tskit.Tree.unrank(n, (r, 0))
             run.case()
             got = tuple(tr.rank())
